@@ -378,7 +378,7 @@ func TestC12(t *testing.T) {
 					case "outage":
 						relay.SetDown(true)
 					case "boxes-deleted":
-						sid, _ := st.SrvData.SID()
+						sid := st.CurSID // the rendezvous the connection runs on
 						a, b := mailbox.GetSID(sid, true), mailbox.GetSID(sid, false)
 						relay.DeleteBox(sidKey(a[:]))
 						relay.DeleteBox(sidKey(b[:]))
